@@ -101,7 +101,7 @@ def parse_libtest(text, tables):
     facts = []
     info = {"wellformed": True, "unpaired": 0, "n_ok": 0, "n_failed": 0, "n_ignored": 0,
             "suite_started": 0, "suite_result": 0, "suite": {}, "retried_failed_lines": 0,
-            "dup_started": 0}
+            "dup_started": 0, "prefix_of": {}}
     open_names = {}
     seen_started = set()
     for line in text.splitlines():
@@ -141,6 +141,10 @@ def parse_libtest(text, tables):
         t = SC.search(name.split("Scenario:")[-1]) if "Scenario:" in name else None
         scen = t.group(0) if t else ""
         last = name.split("::")[-1]
+        # "under its feature": the first segment of a libtest name is the feature (name + path, or
+        # name + ordinal for a path-less feature)
+        if scen:
+            info["prefix_of"].setdefault(scen, set()).add(name.split("::")[0])
         m = re.match(r"^(Before|After) hook$", last)
         if m:
             facts.append(["hook", scen, -1 if m.group(1) == "Before" else -2, status,
@@ -152,7 +156,37 @@ def parse_libtest(text, tables):
         facts.append(["step", scen, _idx(tables, scen, text_), status,
                       _msg(j.get("stdout", "")) if status == "failed" else ""])
     info["unpaired"] += sum(v for v in open_names.values() if v > 0)
+    info["prefix_of"] = {k: sorted(v) for k, v in info["prefix_of"].items()}
     return facts, info
+
+
+def feature_clash(universe, prefix_of):
+    """libtest, "under its feature": the scenarios of one feature are listed under one feature
+    prefix, and scenarios of different features under different ones.  Returns the number of
+    scenarios / pairs of features for which that does not hold."""
+    feat_of = {}
+    for f in universe:
+        for s in f["scenarios"]:
+            feat_of[s["name"]] = f["name"]
+        for r in f["rules"]:
+            for s in r["scenarios"]:
+                feat_of[s["name"]] = f["name"]
+    bad = 0
+    by_feat = {}
+    for scen, prefixes in prefix_of.items():
+        if scen not in feat_of:
+            continue
+        if len(prefixes) > 1:
+            bad += 1
+        by_feat.setdefault(feat_of[scen], set()).update(prefixes)
+    feats = sorted(by_feat)
+    for i, a in enumerate(feats):
+        for b in feats[i + 1:]:
+            if len(by_feat[a]) == 1 and len(by_feat[b]) == 1 and by_feat[a] == by_feat[b]:
+                bad += 1
+            elif len(by_feat[a] | by_feat[b]) < len(by_feat[a]) + len(by_feat[b]):
+                bad += 1
+    return bad
 
 
 def parse_json(text, tables):
